@@ -11,6 +11,7 @@ import OpwVerif.Lemmas.SrcTie
 import OpwVerif.Lemmas.SrcCtlTie
 import OpwVerif.Lemmas.SrcWrapTie
 import OpwVerif.Lemmas.SrcOpwTie
+import OpwVerif.Lemmas.SrcFrameTie
 namespace Opw.Tie
 open Opw
 
@@ -170,6 +171,15 @@ theorem shiftStep_is_source (k : Opw R) (pose : Iso R) (previous : J6 R) (sols :
     SrcOpw.shiftStepSrc (fun prev raw => SrcCtl.singularCandidateSrc k.p prev raw) k pose previous sols d =
       shiftStep k pose previous sols d ∧ (SrcOpw.shiftsSrc : List (V3 R)) = shifts :=
   ⟨shiftStepSrc_eq k pose previous sols d, shiftsSrc_eq⟩
+
+/-- [G] `Frame::frame` and `distances_match`, translated expression by expression from the CURRENT source text (rejections in
+order with their own errors — `ColinearPoints::new(.., true)` must carry the source triple, `false` the target triple —,
+the two orthonormal bases, their product, the quaternion, the translation from the first pair of points), are the model's
+`frameOf` / `distancesMatch` about which the C17 theorems are proved -/
+theorem frame_is_source' (p1 p2 p3 q1 q2 q3 : V3 R) (tol : R) :
+    SrcFrame.frameSrc p1 p2 p3 q1 q2 q3 = frameOf p1 p2 p3 q1 q2 q3 ∧
+    SrcFrame.distancesMatchSrc p1 p2 p3 q1 q2 q3 tol = distancesMatch p1 p2 p3 q1 q2 q3 tol :=
+  ⟨frameSrc_eq p1 p2 p3 q1 q2 q3, distancesMatchSrc_eq p1 p2 p3 q1 q2 q3 tol⟩
 
 /-- [G] `Constraints::compliant` / `Constraints::filter` as the CURRENT source text defines them -/
 theorem constraints_compliant_is_source (c : Constraints R) (a : J6 R) (l : List (J6 R)) :
